@@ -607,6 +607,24 @@ func (env *Env) evalIdent(x *ast.Ident, st *State) Val {
 			}
 			return v
 		}
+		if c.closureMode {
+			// variable captured from the enclosing function: arbitrary (but fixed) value
+			if cv, ok := c.captured[ob]; ok {
+				return cv
+			}
+			sub := *env
+			sub.qvars, sub.qnames = nil, nil
+			cv := sub.havoc(st, "captured_"+x.Name, ob.Type())
+			if c.captured == nil {
+				c.captured = map[types.Object]Val{}
+			}
+			c.captured[ob] = cv
+			if c.entry != nil {
+				c.entry.vars[ob] = cv
+			}
+			st.vars[ob] = cv
+			return cv
+		}
 		c.unsupported("%s: variable %s has no symbolic value", c.e.pos(x.Pos()), x.Name)
 		return env.havoc(st, x.Name, ob.Type())
 	case *types.Const:
@@ -696,7 +714,21 @@ func (env *Env) evalUnary(x *ast.UnaryExpr, st *State) Val {
 				et = t
 			}
 		}
-		return env.havoc(st, "recv", et)
+		rv := env.havoc(st, "recv", et)
+		// ghost history of the values received on this path: recv_
+		if !env.contract {
+			hist, ok := st.ghost["recv_"]
+			ht := types.NewSlice(et)
+			if !ok || hist.Ty == nil {
+				hist = env.zero(ht)
+			}
+			if env.sortOf(hist.Ty) == env.sortOf(ht) {
+				hs := env.sortOf(ht)
+				ln := app("len_"+hs, hist.T)
+				st.ghost["recv_"] = Val{T: app("mk_"+hs, app("store", app("arr_"+hs, hist.T), ln, rv.T), app("+", ln, "1")), Ty: ht}
+			}
+		}
+		return rv
 	}
 	c.unsupported("%s: unary %s", c.e.pos(x.Pos()), x.Op)
 	return intVal("0")
